@@ -25,10 +25,14 @@ _A_TERM = ('termination of the recursive encoder IppValue::{to_tag,to_bytes} IS 
            'as a sub-term) using vstd\'s structural axioms for Vec and BTreeMap (axiom_vec_index_decreases, axiom_btree_map_decreases, '
            'axiom_map_index_decreases)')
 _A_U16 = ('read_u16/read_u32 bodies are outside Verus (u16::from_be_bytes cannot be specified); their contract is discharged '
-          'by the Kani harnesses reader_u16_u32_* for every byte content over a fragmenting, faulting reader')
+          'by the Kani harnesses reader_u16_u32_*: every content of the bytes, over a whole-buffer source (_plain) and over a source that '
+          'fragments to one byte per read, reports Interrupted / not-ready, and ends or fails at every offset (C05-C07)')
 
 # reader primitives read_u16/read_u32 through read_header on the real code; suffix = bytes available before the
 # data ends (h/e: Interrupted or not-ready first / I/O error instead of end-of-file)
+# whole-buffer source, every content of the 8 header bytes: value and position (the contract Verus assumes for read_u16/read_u32
+# in its fragmentation-free stream model)
+_K_RD_PLAIN = ['readers::reader_u16_u32_blocking_plain', 'readers::reader_u16_u32_async_plain']
 _K_RD_FAST = ['readers::reader_u16_u32_blocking_8', 'readers::reader_u16_u32_blocking_7', 'readers::reader_u16_u32_blocking_2']
 _K_RD_ASYNC = ['readers::reader_u16_u32_async_8']
 _K_RD_ALL = [f'readers::reader_u16_u32_{k}_{c}' for k in ('blocking', 'async')
@@ -46,9 +50,8 @@ PROPS = {
                     r'^verif_roundtrip::(lemma_attrs|lemma_abs_prefix_all|lemma_close_group|lemma_groups|lemma_attrs_roundtrip|lemma_message_roundtrip)$',
                     r'^verif_roundtrip::(lemma_coll_of_canonical|lemma_members_map_prefix)$',
                     r'^verif_machine::(m_run|pair_fold)$', r'^verif_spec::(aval|abs_vals|abs_map|spec_val_enc|set_enc|members_enc)$'],
-        'kani': ['tables::table_value_tag', 'tables::table_delimiter_tag', 'tables::table_tag_none_outside'] + _K_RD_FAST,
-        'kani_thorough': _K_RD_ALL,
-        'bounded': ['c01', 'c01_utc_dir', 'container'],
+        'kani': ['tables::table_value_tag', 'tables::table_delimiter_tag', 'tables::table_tag_none_outside'] + _K_RD_PLAIN,
+        'bounded': ['c01', 'c01_utc_dir'],
         'assumptions': [_A_STREAM, _A_BYTES, _A_UTF8, _A_LOG, _A_W8, _A_TERM, _A_U16,
                         'composition: encoder == spec (C03 obligations), lemma_message_roundtrip (proved): m_message(header ++ attrs ++ payload) == '
                         '(emitted groups, payload); parser == m_message (C04 obligations). The theorem is over the abstract view: group tags and '
@@ -69,8 +72,7 @@ PROPS = {
         'verus': _VALDEC + _STATE + _DRIVE + _ADRIVE + _READER + _AREADER + _VALENC + [r'^verif_spec::scan_rest$',
                   r'^attribute::IppAttribute::to_bytes$', r'^attribute::IppAttributes::to_bytes$', r'^request::IppRequestResponse::to_bytes$',
                   r'^IppHeader::to_bytes$'],
-        'kani': ['tables::table_value_tag', 'tables::table_delimiter_tag', 'tables::table_tag_none_outside'] + _K_RD_FAST,
-        'kani_thorough': _K_RD_ALL,
+        'kani': ['tables::table_value_tag', 'tables::table_delimiter_tag', 'tables::table_tag_none_outside'] + _K_RD_PLAIN,
         'assumptions': [_A_STREAM, _A_BYTES, _A_UTF8, _A_LOG, _A_W8, _A_TERM, _A_U16],
         'uncovered': ['stack exhaustion on deeply nested input (no stack model in Verus or Kani)',
                       'Display / derived Clone / Drop of the returned value (format machinery and derive output are outside both tools); '
@@ -95,15 +97,14 @@ PROPS = {
                         'groups_of / is_header_attr contracts assumed (see C09); precondition groups_wf'],
         'uncovered': ['"read back by an independent decoder" is discharged as the composition of this encoder specification with the RFC '
                       'machine of C04: verif_roundtrip::lemma_message_roundtrip (proved, counted under C01) on the domain stated there'],
-        'bounded': ['c03', 'container'],
+        'bounded': ['c03'],
         'design_ref': '§4 C03',
     },
     'C04': {
         'title': 'parser reads every well-formed RFC 8010 message as the RFC says',
         'verus': _VALDEC + _STATE + _DRIVE + _ADRIVE + _READER + _AREADER
                  + [r'^verif_machine::(m_run|pair_fold|lemma_str_of_view)$', r'^verif_spec::(aval|abs_vals|abs_map)$'],
-        'kani': ['tables::table_value_tag', 'tables::table_delimiter_tag', 'tables::table_tag_none_outside'] + _K_RD_FAST,
-        'kani_thorough': _K_RD_ALL,
+        'kani': ['tables::table_value_tag', 'tables::table_delimiter_tag', 'tables::table_tag_none_outside'] + _K_RD_PLAIN,
         'assumptions': [_A_STREAM, _A_BYTES, _A_UTF8, _A_LOG, _A_W8, _A_U16,
                         'the oracle is the abstract machine of specs/verif_machine.rs (an operational reading of RFC 8010 §3.1.2-3.1.6 '
                         'over tokens, legal tokens only); it is reviewed, not derived from a grammar-directed semantics',
@@ -123,7 +124,7 @@ PROPS = {
         'title': 'async parser == blocking parser',
         'verus': _READER + _AREADER + _DRIVE + _ADRIVE + _STATE + _VALDEC
                  + [r'^verif_total::(t_run|lemma_t_flush_m|lemma_t_delim_m|lemma_t_value_m|lemma_t_refines_m|lemma_same_outcome)$'],
-        'kani': _K_RD_FAST + _K_RD_ASYNC,
+        'kani': _K_RD_PLAIN + _K_RD_FAST + _K_RD_ASYNC,
         'kani_thorough': _K_RD_ALL,
         'assumptions': [_A_STREAM, _A_LOG, _A_W8, _A_U16, _A_BYTES, _A_UTF8,
                         'the common function is specs/verif_total.rs::t_run, a total description of the shared state machine on every '
@@ -178,7 +179,7 @@ PROPS = {
                         'and proves rank-sortedness for whichever order occurred); no sampling of hash seeds'],
         'uncovered': ['that the constructors/builders put printer-uri / job-id into the operation group is C10; here: whatever is in the first '
                       'operation group is emitted in RFC order, once each'],
-        'bounded': ['c09', 'container'],
+        'bounded': ['c09'],
         'design_ref': '§4 C09',
     },
     'C10': {
@@ -212,3 +213,49 @@ PROPS = {
         'design_ref': '§4 C16',
     },
 }
+
+
+# ----------------------------------------------------------------------------------------------------------------------
+# Attribution.  `verus` / `kani` above say which obligations make up the PROOF of a property.  `essential` says which of them
+# state the property itself at function level: only their failure is reported as a violation on its own.  Any other failure in
+# the proof chain (a clause tagged for another property, an auxiliary clause, a safety condition outside C02) costs the property
+# its proof; the decision then rests on the property's own bounded check of the real code (VIOLATION with the failing input, or
+# PROOF-LOST and exit 0).  Clause tags c02(..) .. c16(..), aux(..) are identity functions (specs/verif_ext.rs).
+#   rule = {owners: regex on the owning function, tags: clause tags that count, untagged: untagged functional clauses /
+#           hints count, safety: arithmetic / index / unwrap / termination conditions in the real code count}
+_FRONT = r'^parser::(Async)?IppParser::'
+_RDRS = r'^reader::(Async)?IppReader::'
+_ENC = (r'^(value::IppValue::(to_tag|to_bytes)|attribute::IppAttribute::to_bytes|attribute::IppAttributes::to_bytes|'
+        r'IppHeader::to_bytes|request::IppRequestResponse::to_bytes)$')
+_DEC = r'^(value::get_len_string|value::IppValue::parse|parser::list_or_value|parser::ParserState::\w+)$'
+_ESS = {
+    'C01': {'essential': [{'owners': r'^(ghost:.*verif_roundtrip|verif_roundtrip::)', 'untagged': True}],
+            'kani_essential': []},
+    'C02': {'essential': [{'owners': '|'.join([_FRONT, _RDRS, _ENC, _DEC]), 'tags': ['c02'], 'safety': True}],
+            'kani_essential': _K_RD_PLAIN},
+    'C03': {'essential': [{'owners': _ENC, 'tags': ['c03'], 'untagged': True},
+                          {'owners': r'^verif_lemmas::(lemma_op_group_done|lemma_iter_keys|lemma_keys_enc_\w+|lemma_others_enc_\w+)$', 'untagged': True}],
+            'kani_essential': ['tables::table_value_tag', 'tables::table_delimiter_tag']},
+    'C04': {'essential': [{'owners': '|'.join([_DEC, _FRONT, _RDRS]), 'tags': ['c04'], 'untagged': True},
+                          {'owners': r'^verif_machine::', 'untagged': True}],
+            'kani_essential': ['tables::table_value_tag', 'tables::table_delimiter_tag', 'tables::table_tag_none_outside'] + _K_RD_PLAIN},
+    'C05': {'essential': [{'owners': '|'.join([_FRONT, _RDRS]), 'tags': ['c04', 'c05', 'c06', 'c07'], 'untagged': True},
+                          {'owners': r'^verif_total::', 'untagged': True}],
+            'paired': True},
+    'C06': {'essential': [{'owners': '|'.join([_FRONT, _RDRS]), 'tags': ['c06']}],
+            'kani_essential': ['readers::reader_u16_u32_blocking_8', 'readers::reader_u16_u32_async_8',
+                               'readers::reader_u16_u32_blocking_8h', 'readers::reader_u16_u32_async_8h']},
+    'C07': {'essential': [{'owners': '|'.join([_FRONT, _RDRS]), 'tags': ['c07']},
+                          {'owners': r'^verif_lemmas::lemma_scan_prefix_none$', 'untagged': True}],
+            'kani_essential': ['errors::io_error_kind_preserved'] + [h for h in _K_RD_FAST + _K_RD_ALL if not h.endswith(('_8', '_8h'))]},
+    'C09': {'essential': [{'owners': r'^(attribute::IppAttributes::to_bytes|request::IppRequestResponse::(new|new_response|to_bytes))$', 'tags': ['c09']},
+                          {'owners': r'^(attribute::lemma_header_attrs_ok|verif_lemmas::(lemma_first_op|lemma_loop1_step|lemma_loop2_step|lemma_op_group_done))$',
+                           'untagged': True}],
+            'kani_essential': ['tables::table_delimiter_tag']},
+    'C10': {'essential': [{'owners': r'^(operation::|request::IppRequestResponse::(new|new_response|header_mut|attributes_mut|payload_mut|header|attributes|payload)$|'
+                                     r'model::IppVersion::v1_1$|IppHeader::new$)', 'tags': ['c10'], 'untagged': True}],
+            'kani_essential': ['tables::table_operation']},
+    'C16': {'essential': [{'owners': r'^(IppHeader::status_code|model::StatusCode::is_success)$', 'tags': ['c16'], 'untagged': True}]},
+}
+for _k, _v in _ESS.items():
+    PROPS[_k].update(_v)
